@@ -188,6 +188,16 @@ CLAIMED = {
         note=TRUST + " Assumed: badger v2 and pebble iterator contracts (spec/kvlib.gvc, written from their documentation), the "
              "direction of the cursor badgerIterator.init creates, copyBytes; nil and empty byte slices identified, no stored key empty.",
         technique="contract-based deductive verification: driver wrappers proved against the interface contract over assumed library contracts"),
+    "C15": dict(
+        level="other",
+        text="Partial: the edge-id scheme of a mapped graph - GenID builds <from prefix><row id>-<label>-<to prefix><row id> and "
+             "ParseEdge is proved to return exactly the three parts back for all dash-free parts; that ParseEdge accepts every id GenID "
+             "can build is a known finding (row ids containing '-'). Not decided: everything that involves the external table "
+             "servers (one vertex per row, one edge per link row, equality of traversals with the materialised graph, refusal of "
+             "writes): the gRPC table clients are outside the model.",
+        ref="§5 C15",
+        note=TRUST + " Assumed: strings.Split on '-' of a three-part dash-free concatenation (spec/dash.smt2, validated by validate_axioms).",
+        technique="contract-based deductive verification: WP/VC generation over go/ssa + SMT (z3/cvc5)"),
 }
 
 NOT_APPLICABLE = {
